@@ -13,7 +13,7 @@ from vlib.runner import Refused, Violation, sut
 from vlib.spec import build, pk, spec_scope
 
 ID = "C15"
-BUDGET = {"quick": 800, "thorough": 16000}
+BUDGET = {"quick": 800, "thorough": 48000}
 N_SAMPLES = 20000
 P_THRESHOLD = 1e-9
 RULE = ("Generated: normalised monotonic smooth&decomposable circuits over 1..4 discrete variables numbered 0..D-1 "
